@@ -390,6 +390,19 @@ def _r043_044(ck, prog, cfg):
         ck.check(path is None, "R04.3", "run:clear#%d%s" % (n3, _tag(cfg)),
                  "input is discarded without an error reply on some path: a malformed frame produces silence", fn.where(t["ln"]),
                  detail="buffer.clear() followed by encode_error_into")
+    # wholesale replacement / shortening of the input buffer in the loop (mem::replace/take/swap, truncate, split_off ..) is a discard too:
+    # the loop only consumes complete frames, so the buffer can still hold the first bytes of the next pipelined command
+    for b, t in fn.calls():
+        if not t.get("args"):
+            continue
+        if is_callee(t, r"^std::mem::(take|replace|swap)::<bytes::BytesMut>$", r"BytesMut::(truncate|split|split_off|set_len|resize)$") and \
+                any(_is_buf(fn, a, "buffer") for a in t["args"][:2]):
+            n3 += 1
+            path = lib2.path_avoiding(fn, b, lambda x: x in writes or x in reads or fn.term(x)["k"] == "return", lambda x: x in err_encb)
+            ck.check(path is None, "R04.3", "run:discard(%s)#%d%s" % (callee(t).rsplit("::", 1)[-1].split("<")[0], n3, _tag(cfg)),
+                     "the read loop throws away what is left in the input buffer (%s) without an error reply: the unparsed prefix of the next "
+                     "pipelined command is lost, the rest of that frame parses as garbage and the commands behind it get no reply"
+                     % callee(t).rsplit("::", 1)[-1], fn.where(t["ln"]), detail="a discard is followed by encode_error_into")
     ck.floor("R04.3" + _tag(cfg), n3, 1)
     # the ParseError arm exists: switch over CommandResult with a ParseError edge reaching an error encode
     tec = [(b, t) for b, t in fn.calls() if is_callee(t, r"try_execute_command$")]
